@@ -92,7 +92,8 @@ def run(ctx, chars):
                 variants_by_rule[rn].append(raw)
     write_crate(fields_by_rule, variants_by_rule)
     env = vlib.cargo_env()
-    env["CARGO_TARGET_DIR"] = os.path.join(crate_dir(), "target")
+    import e2e
+    env["CARGO_TARGET_DIR"] = e2e.target_dir()
     rc, out = vlib.sh(["cargo", "run", "--offline", "--quiet"], cwd=crate_dir(), env=env, timeout=3000)
     if rc != 0:
         ctx.log("e2e-c09 failed:\n" + out[-3000:])
